@@ -60,6 +60,20 @@ PROPS['C02'] = dict(
     explanation='Refinement proof: for every initial size n > 0 and every operation sequence the ring returns what a list FIFO returns (induction over ops; growth case included).',
 )
 
+PROPS['C17'] = dict(
+    modules=['Vivid.Props.C17'],
+    gens=[],
+    engines=[dict(name='view', must_hit=['merge:changed', 'merge:unchanged', 'skew-rule', 'non-wf-case'] + ['adopt:%s:strategy%d:%s:skew0' % (c, st, r) for c in ('concurrent', 'ordered') for st in (0, 1, 2) for r in ('remote-epoch-higher', 'remote-epoch-lower', 'epoch-eq')])],
+    rule='view: three views built by random op sequences (AddMember incl. generation bumps and status changes, RemoveMember, IncrementVersion, direct epoch/timestamp/protocol) '
+         'over <= 4 (thorough 5) node ids; then all merge orders of two and three views on snapshots (A<-B, B<-A, (A<-B)<-C, A<-(B<-C), self-merge), for every '
+         'concurrent-version strategy and both outcomes of the clock-skew rule; dump of the whole view compared with the model after every op. '
+         'A case is non-trivial when the first merge reports changed=true. 1 in 12 cases leaves the well-formed domain on purpose (logical clock 0 / version-vector keys outside the membership): compared with the model, monitors off.',
+    trusted_base=COMMON_TRUST + ['time.Now() in the clock-skew rule: exercised only with timestamps far inside / far outside the window (1h window; now+-ns vs 1970)'],
+    assumptions=['member tables are well-formed (map key = state id, logical clock non-zero): holds for newNodeState, the restart bump and results of merges (C17_merge_swf); the wire decoder can produce states outside it (noted under C13/C18)',
+                 'version-vector monotonicity and the changed flag for the vector are checked by the harness monitor; the Lean theorem for the vector part needs members <= MaxVersionVectorEntries (known finding VV-CAP)'],
+    explanation='Theorem: the membership after a merge is, per id, the lexicographic max of (generation, logical clock) of the two views, for all options; commutativity / associativity / idempotence, no removal, no regress are corollaries; epoch/timestamp/protocol never decrease; changed=false implies the member table is untouched.',
+)
+
 # Text of level_claimed per property (MANIFEST); NOT_APPLICABLE: properties not claimed, with reason.
 LEVEL_TEXT = {}
 NOT_APPLICABLE = {}
